@@ -134,3 +134,103 @@ Definition wobs_eqb (a b : wobs) : bool :=
   | WFuel, WFuel => true
   | _, _ => false
   end.
+
+(* ------------------------------------------------------------------ C02 monitor *)
+(* Over a wake-driven trace, as an outside observer: after every settle,
+   (a) the settle itself terminated (no WFuel);
+   (b) if the dispatch has ended with an error, or was dropped, no call that was started and not
+       dropped is still unresolved;
+   (c) if the dispatch is alive, the script has left the transport writable (ready, flushing,
+       no fault armed since the last failure-free settle, unlimited or coupled capacity) with
+       nothing left to read, and some started call is unresolved, then at least one request is
+       in flight (its timer or its reply is what the system is waiting for). *)
+Record wmon := {
+  wm_calls : nat;                 (* calls created *)
+  wm_live : list bool;            (* per call: created on a live handle *)
+  wm_done : list nat; wm_dropped : list nat;
+  wm_handles : list bool;
+  wm_dead : bool;                 (* dispatch ended with an error or was dropped *)
+  wm_ended : bool;                (* dispatch ended (any result) *)
+  wm_ready : bool; wm_flush : bool; wm_tainted : bool (* fault armed / eof / close fiddled *) }.
+
+Definition wm0 := {| wm_calls := 0; wm_live := []; wm_done := []; wm_dropped := [];
+                     wm_handles := [true]; wm_dead := false; wm_ended := false;
+                     wm_ready := true; wm_flush := true; wm_tainted := false |}.
+
+Definition memn (x : nat) (l : list nat) := existsb (Nat.eqb x) l.
+
+Definition wm_op (m : wmon) (o : sop) : wmon :=
+  match o with
+  | SClone h =>
+    match nth_error (wm_handles m) h with
+    | Some true => {| wm_calls := wm_calls m; wm_live := wm_live m; wm_done := wm_done m; wm_dropped := wm_dropped m; wm_handles := wm_handles m ++ [true]; wm_dead := wm_dead m; wm_ended := wm_ended m; wm_ready := wm_ready m; wm_flush := wm_flush m; wm_tainted := wm_tainted m |}
+    | _ => m end
+  | SDropH h =>
+    {| wm_calls := wm_calls m; wm_live := wm_live m; wm_done := wm_done m; wm_dropped := wm_dropped m;
+       wm_handles := set_nth h false (wm_handles m); wm_dead := wm_dead m; wm_ended := wm_ended m;
+       wm_ready := wm_ready m; wm_flush := wm_flush m; wm_tainted := wm_tainted m |}
+  | SCall h _ _ _ _ =>
+    let alive := match nth_error (wm_handles m) h with Some true => true | _ => false end in
+    {| wm_calls := S (wm_calls m); wm_live := wm_live m ++ [alive]; wm_done := wm_done m;
+       wm_dropped := wm_dropped m; wm_handles := wm_handles m; wm_dead := wm_dead m;
+       wm_ended := wm_ended m; wm_ready := wm_ready m; wm_flush := wm_flush m;
+       wm_tainted := wm_tainted m |}
+  | SDropCall i | SGClose i =>
+    {| wm_calls := wm_calls m; wm_live := wm_live m; wm_done := wm_done m;
+       wm_dropped := i :: wm_dropped m; wm_handles := wm_handles m; wm_dead := wm_dead m;
+       wm_ended := wm_ended m; wm_ready := wm_ready m; wm_flush := wm_flush m;
+       wm_tainted := wm_tainted m |}
+  | SDropD =>
+    {| wm_calls := wm_calls m; wm_live := wm_live m; wm_done := wm_done m;
+       wm_dropped := wm_dropped m; wm_handles := wm_handles m; wm_dead := true;
+       wm_ended := true; wm_ready := wm_ready m; wm_flush := wm_flush m;
+       wm_tainted := wm_tainted m |}
+  | STr (TSetReady b) =>
+    {| wm_calls := wm_calls m; wm_live := wm_live m; wm_done := wm_done m;
+       wm_dropped := wm_dropped m; wm_handles := wm_handles m; wm_dead := wm_dead m;
+       wm_ended := wm_ended m; wm_ready := b; wm_flush := wm_flush m; wm_tainted := wm_tainted m |}
+  | STr (TSetFlush b) =>
+    {| wm_calls := wm_calls m; wm_live := wm_live m; wm_done := wm_done m;
+       wm_dropped := wm_dropped m; wm_handles := wm_handles m; wm_dead := wm_dead m;
+       wm_ended := wm_ended m; wm_ready := wm_ready m; wm_flush := b; wm_tainted := wm_tainted m |}
+  | STr (TFail _) | STr TEof | STr (TSetClose _) =>
+    {| wm_calls := wm_calls m; wm_live := wm_live m; wm_done := wm_done m;
+       wm_dropped := wm_dropped m; wm_handles := wm_handles m; wm_dead := wm_dead m;
+       wm_ended := wm_ended m; wm_ready := wm_ready m; wm_flush := wm_flush m; wm_tainted := true |}
+  | _ => m
+  end.
+
+Definition wm_unresolved (m : wmon) : bool :=
+  existsb (fun i => nth i (wm_live m) false && negb (memn i (wm_done m)) && negb (memn i (wm_dropped m)))
+          (seq 0 (wm_calls m)).
+
+Fixpoint c02_run (c : ccfg) (m : wmon) (ops : list wop) (tr : list wobs) : bool :=
+  match ops, tr with
+  | [], [] => true
+  | WOp o :: ops', WO l :: tr' =>
+    (* explicit polls may appear in mixed scripts: record outcomes they show *)
+    let m1 := wm_op m o in
+    let m2 := match o, l with
+              | SPollCall i, [OCall (CDone _)] =>
+                {| wm_calls := wm_calls m1; wm_live := wm_live m1; wm_done := i :: wm_done m1; wm_dropped := wm_dropped m1; wm_handles := wm_handles m1; wm_dead := wm_dead m1; wm_ended := wm_ended m1; wm_ready := wm_ready m1; wm_flush := wm_flush m1; wm_tainted := wm_tainted m1 |}
+              | SPollD, [_; ODisp (DReady d); _] =>
+                {| wm_calls := wm_calls m1; wm_live := wm_live m1; wm_done := wm_done m1; wm_dropped := wm_dropped m1; wm_handles := wm_handles m1; wm_dead := match d with DErr _ => true | DOk => wm_dead m1 end; wm_ended := true; wm_ready := wm_ready m1; wm_flush := wm_flush m1; wm_tainted := wm_tainted m1 |}
+              | _, _ => m1 end in
+    negb (existsb (fun x => match x with OPanic | OSpin => true | _ => false end) l)
+    && c02_run c m2 ops' tr'
+  | WSettle :: ops', WS _ _ dn disp a _ :: tr' =>
+    let m1 := {| wm_calls := wm_calls m; wm_live := wm_live m; wm_done := map fst dn ++ wm_done m;
+                 wm_dropped := wm_dropped m; wm_handles := wm_handles m;
+                 wm_dead := match disp with Some (DErr _) => true | _ => wm_dead m end;
+                 wm_ended := match disp with Some _ => true | None => wm_ended m end;
+                 wm_ready := wm_ready m; wm_flush := wm_flush m; wm_tainted := wm_tainted m |} in
+    let writable_b := wm_ready m1 && wm_flush m1 && negb (wm_tainted m1)
+                      && (Nat.eqb (cf_cap c) 0 || cf_coupled c) in
+    (negb (wm_dead m1) || negb (wm_unresolved m1))
+    && (negb (negb (wm_ended m1) && writable_b && wm_unresolved m1 && (1 <=? cf_maxif c)%nat)
+        || (1 <=? a))
+    && c02_run c m1 ops' tr'
+  | _, _ => false          (* WFuel, or a malformed trace *)
+  end.
+
+Definition c02_ok (c : ccfg) (ops : list wop) (tr : list wobs) : bool := c02_run c wm0 ops tr.
